@@ -23,9 +23,11 @@ def I(name, entry, what, tiers=Q, **c):
     d.update(kw); return d
 def BI(a, m, r):
     i = I('bind_%s%s%s' % (['result', 'error', 'nobind'][a], '_sm' if m else '', '_nojid' if (a == 0 and not r) else ''), 'bind_answer',
-          'real startResourceBinding step (stream management %s), then handlePacketReceived(%s)' % (['not offered', 'offered'][m], ['<iq type=result id=ID><bind><jid>1..2 units, %s</jid></bind></iq>' % ['not a full JID', 'a full JID'][r], '<iq type=error id=ID><bind/></iq>', '<iq type=result id=ID/>'][a]),
+          'real startResourceBinding step (stream management %s), then handlePacketReceived(%s)' % (['not offered', 'offered'][m], ['<iq type=result id=ID><bind><jid>2 arbitrary units, %s</jid></bind></iq>' % ['not a full JID', 'a full JID'][r], '<iq type=error id=ID><bind/></iq>', '<iq type=result id=ID/>'][a]),
           session=False, ev=a | m << 2, tiers=Q if (a, m, r) in ((0, 0, 1), (0, 1, 1)) else T)
-    i['cdefs'].update({'C10_RE_MATCHES': r, 'QS_CAP': 96}); return i
+    i['cdefs'].update({'C10_RE_MATCHES': r})
+    if a == 0 and not r: i['cdefs']['QS_CAP'] = 96      # the error text 'Resource binding failed: ...' is longer than the default string capacity
+    return i
 DISC = 'socket disconnected (_q_socketDisconnected)'
 SE = 'socketError(any QAbstractSocket::SocketError), socket connected or not'
 INST = (
